@@ -110,6 +110,9 @@ def reference_split(text, pattern):
     return spans, chunks      # chunks[0] = text before the first marker, chunks[j] = text after marker j
 
 
+OTHER_TEXTS = ['x = (1\ny = 2\n', 'a = 1\nb = 2\n  c = 3\n', 'fine = 1\nprint(fine)\n', 'one = 1\ntwo = 2\nthree = 3\ndef f(:\n    pass\n']
+
+
 class Stepper:
     def __init__(self, tier):
         from pedal.core.report import MAIN_REPORT
@@ -128,7 +131,8 @@ class Stepper:
             return st.sampled_from([{'op': 'check_restored'}, {'op': 'resolve'}])
         return st.sampled_from([{'op': 'next_section'}, {'op': 'next_section'}, {'op': 'next_section'}, {'op': 'verify'}, {'op': 'tifa'}, {'op': 'run'},
                                 {'op': 'verify'}, {'op': 'run'}, {'op': 'tifa'}, {'op': 'verify'}, {'op': 'run'}, {'op': 'next_section'},
-                                {'op': 'call'}, {'op': 'evaluate'}, {'op': 'call'}, {'op': 'cait'}, {'op': 'cait'}, {'op': 'stop_sections'}, {'op': 'resolve'}])
+                                {'op': 'call'}, {'op': 'evaluate'}, {'op': 'call'}, {'op': 'cait'}, {'op': 'cait'}, {'op': 'stop_sections'}, {'op': 'resolve'},
+                                {'op': 'verify_other', 'which': 0}, {'op': 'verify_other', 'which': 1}, {'op': 'verify_other', 'which': 2}, {'op': 'verify_other', 'which': 3}])
 
     # ------------------------------------------------------------------
     def active_reference(self):
@@ -218,6 +222,27 @@ class Stepper:
                         if got != want:
                             viol.append(V('C17|line|syntax|%s' % self.mode(), 'syntax error is on file line %d, feedback says %r (section %d, %s)'
                                           % (want, got, self.section, self.mode())))
+            elif kind == 'verify_other':
+                # another text of the grading (a helper file, an instructor snippet) is verified under its own name while a
+                # section of the main file is active: its lines are its own
+                text = OTHER_TEXTS[op['which'] % len(OTHER_TEXTS)]
+                n0 = len(self.report.feedback)
+                verify(text, filename='helper.py')
+                new = [f for f in self.report.feedback[n0:] if f.label in ('syntax_error', 'indentation_error')]
+                try:
+                    ast.parse(text, 'helper.py')
+                    want = None
+                except SyntaxError as e:
+                    want = e.lineno
+                self.flags.add('other-file-verified-in-section')
+                if (want is None) != (not new):
+                    viol.append(V('C17|verify-other|presence', 'helper text %r: CPython error line %r, %d syntax feedback attached' % (text, want, len(new))))
+                elif want is not None:
+                    got = new[0].location.line if new[0].location else None
+                    if got != want:
+                        viol.append(V('C17|line|syntax-other-file|%s' % self.mode(), 'the helper file has its error on its line %d, feedback says %r (section %d of the main file active, %s)'
+                                      % (want, got, self.section, self.mode())))
+                verify()        # back to the section itself
             elif kind == 'tifa':
                 code, positioned = self.active_reference()
                 if code is None and self.section >= len(self.chunks) and self.report.submission.main_code == self.text:
